@@ -115,12 +115,15 @@ def gen_cases(tier: str, seed: int) -> list[dict[str, Any]]:
         hist = HISTORIES[h]
         if extra['accum'] == 2:
             hist = [['train', 2] if op[0] == 'train' else op for op in hist]
-        model = 'mlp3' if (i % 3) else 'mlp2'
+        model = ['mlp3', 'mixb', 'mlp2', 'mlp2nb'][i % 4]
         if tier == 'thorough' and i % 7 == 0:
             model = 'conv'
         cfg = dict(c)
         cfg.update(extra)
         cfg['model'] = model
+        cfg.update([dict(), dict(inv_dtype='float64'),
+                    dict(param_dtype='float64', inv_dtype='float32'),
+                    dict()][(i // 4) % 4])
         cases.append({'cfg': cfg, 'hist_name': h, 'history': hist,
                       'seed': seed * 1000 + i})
     return cases
